@@ -55,6 +55,11 @@ def sysOp (s : Sys) (tok : String) : Option (Sys × String) :=
     some (s.watch (sysPid (← actorId? a)) (sysPid (← actorId? b)), "W:ok")
   | ["U", a, b] => do
     some (s.unwatch (← actorId? a) (← actorId? b), "U:ok")
+  | ["H", _, _, _] =>
+    -- hook: a SpawnChild issued from inside a PostStop of the subtree that is being stopped.  The parent it
+    -- targets is in the middle of its stop (`stopping` set, hence not `IsRunning()`), so the spawn is refused
+    -- and nothing changes; the harness reports `hook=<y>:err`
+    some (s, "H:ok")
   | ["F", x] => do
     -- a failure with no matching supervisor directive: `notifyParent` suspends the actor
     let x ← actorId? x
